@@ -168,7 +168,7 @@ func lenConstFacts(s *State, base ssa.Value) (lo int64, haveLo bool) {
 }
 
 // fixedLen returns the statically known length of the value (arrays, slices of arrays, make with constant, known producers).
-func (s *State) fixedLen(v ssa.Value) (int64, bool) {
+func (s *State) FixedLen(v ssa.Value) (int64, bool) {
 	v = s.Canon(v)
 	t := v.Type()
 	if pt, ok := t.Underlying().(*types.Pointer); ok {
@@ -188,7 +188,7 @@ func (s *State) fixedLen(v ssa.Value) (int64, bool) {
 		}
 	case *ssa.Slice:
 		if x.Low == nil && x.High == nil {
-			return s.fixedLen(x.X)
+			return s.FixedLen(x.X)
 		}
 		if x.High != nil {
 			if k, ok := s.Canon(x.High).(*ssa.Const); ok {
@@ -267,7 +267,7 @@ func dischargeBounds(s *State, ins ssa.Instruction) (bool, string) {
 		}
 	}
 	if need >= 0 {
-		if n, ok := s.fixedLen(base); ok && n >= need {
+		if n, ok := s.FixedLen(base); ok && n >= need {
 			return true, fmt.Sprintf("operand has fixed length %d >= %d", n, need)
 		}
 		if lb, ok := lenConstFacts(s, base); ok && lb >= need {
